@@ -546,7 +546,15 @@ func main() {
 	var fmu sync.Mutex
 	var cfgs []string
 	dumped := false
+	ran := 0
 	for r := 1; r <= *runs; r++ {
+		fmu.Lock()
+		enough := nFind >= 8
+		fmu.Unlock()
+		if enough {
+			break // a tree that fails keeps failing, and every hang costs a time limit
+		}
+		ran = r
 		cfg := randomConfig(rng, true)
 		cutAfter := int64(-1)
 		curStall = -1
@@ -604,5 +612,5 @@ func main() {
 			cfgs = append(cfgs, cfg.String())
 		}
 	}
-	enc.Encode(map[string]any{"summary": map[string]any{"runs": *runs, "events": rec.n, "findings": nFind, "by_sig": bySig, "configs": cfgs}})
+	enc.Encode(map[string]any{"summary": map[string]any{"runs": ran, "events": rec.n, "findings": nFind, "by_sig": bySig, "configs": cfgs}})
 }
